@@ -142,9 +142,161 @@ Theorem build_graph_sym ops :
   forall p c, In c (children (build_graph ops) p) <-> In p (parents (build_graph ops) c).
 Proof. exact (sym_fold ops empty_graph sym_empty). Qed.
 
+
+(* ---- every dependency of a vertex is itself a vertex of the graph ---- *)
+
+Definition ClosedG (vs : list (vid * vertex)) : Prop :=
+  forall p c, In c (v_children (lk vs p)) -> In c (keys vs).
+
+Lemma keys_vset k v l : keys (vset k v l) = if mem_str k (keys l) then keys l else keys l ++ [k].
+Proof.
+  induction l as [|[k' v'] l IH]; simpl; [reflexivity|].
+  destruct (str_eqb k k') eqn:E; simpl.
+  - apply str_eqb_eq in E. subst. reflexivity.
+  - rewrite IH. destruct (mem_str k (keys l)); reflexivity.
+Qed.
+
+Lemma keys_vset_incl k v l x : In x (keys l) -> In x (keys (vset k v l)).
+Proof. rewrite keys_vset. destruct (mem_str k (keys l)); [auto | intros H; apply in_or_app; left; exact H]. Qed.
+
+Lemma keys_vset_self k v l : In k (keys (vset k v l)).
+Proof.
+  rewrite keys_vset. destruct (mem_str k (keys l)) eqn:M; [apply mem_str_In; exact M|].
+  apply in_or_app. right. left. reflexivity.
+Qed.
+
+Lemma edge_children vs id did p :
+  let v := lk vs id in
+  let vs1 := vset id (mkVertex (v_children v ++ [did]) (v_parents v) (v_retries v)) vs in
+  let dv := lk vs1 did in
+  v_children (lk (vset did (mkVertex (v_children dv) (v_parents dv ++ [id]) (v_retries dv)) vs1) p) =
+  if str_eqb p id then v_children (lk vs p) ++ [did] else v_children (lk vs p).
+Proof.
+  intros v vs1 dv. destruct (str_eqb_spec p did) as [->|Nd].
+  - rewrite lk_vset_same. simpl. unfold dv, vs1.
+    destruct (str_eqb_spec did id) as [->|Ni].
+    + rewrite lk_vset_same. reflexivity.
+    + rewrite lk_vset_other by exact Ni. reflexivity.
+  - rewrite lk_vset_other by exact Nd. unfold vs1.
+    destruct (str_eqb_spec p id) as [->|Ni].
+    + rewrite lk_vset_same. reflexivity.
+    + rewrite lk_vset_other by exact Ni. reflexivity.
+Qed.
+
+Lemma closed_add_task g t g' : ClosedG (g_vs g) -> add_task g t = inl g' ->
+  ClosedG (g_vs g') /\ (forall x, In x (keys (g_vs g)) -> In x (keys (g_vs g'))) /\
+  (forall id f, t = Some (id, f) -> In id (keys (g_vs g'))).
+Proof.
+  intros HC H. unfold add_task in H.
+  destruct t as [[id hasfn]|]; [|discriminate].
+  destruct id as [|i0 id']; [discriminate|].
+  destruct (negb hasfn); [discriminate|].
+  destruct (alookup (i0 :: id') (g_vs g)) eqn:A; inversion H; subst; clear H.
+  - split; [exact HC|]. split; [auto|]. intros id f E. inversion E; subst. eapply alookup_Some_key; eauto.
+  - simpl. split.
+    + intros p c Hc. rewrite lk_app_new in Hc by exact A. unfold keys. rewrite map_app. apply in_or_app. left. exact (HC p c Hc).
+    + split.
+      * intros x Hx. unfold keys. rewrite map_app. apply in_or_app. left. exact Hx.
+      * intros id f E. inversion E; subst. unfold keys. rewrite map_app. apply in_or_app. right. left. reflexivity.
+Qed.
+
+Lemma closed_retrieve g t g' id : ClosedG (g_vs g) -> retrieve_or_add g t = inl (g', id) ->
+  ClosedG (g_vs g') /\ (forall x, In x (keys (g_vs g)) -> In x (keys (g_vs g'))) /\ In id (keys (g_vs g')).
+Proof.
+  intros HC H. unfold retrieve_or_add in H.
+  destruct t as [[i hasfn]|]; [|discriminate].
+  destruct (alookup i (g_vs g)) eqn:A.
+  - inversion H; subst. split; [exact HC|]. split; [auto|]. eapply alookup_Some_key; eauto.
+  - destruct (add_task g (Some (i, hasfn))) as [g1|e] eqn:AT; [|discriminate].
+    inversion H; subst. destruct (closed_add_task _ _ _ HC AT) as (C1 & C2 & C3).
+    split; [exact C1|]. split; [exact C2|]. eapply C3; reflexivity.
+Qed.
+
+Lemma closed_depends_on deps : forall g id, ClosedG (g_vs g) -> In id (keys (g_vs g)) ->
+  ClosedG (g_vs (depends_on g id deps)).
+Proof.
+  induction deps as [|d rest IH]; intros g id HC Iid; simpl; [exact HC|].
+  destruct (retrieve_or_add g d) as [[g1 did]|e] eqn:R; [|exact HC].
+  destruct (closed_retrieve _ _ _ _ HC R) as (C1 & C2 & C3).
+  destruct (mem_str did (v_children (vget g1 id))); [exact C1|].
+  apply IH; simpl.
+  - intros p c Hc. pose proof (edge_children (g_vs g1) id did p) as EC. cbv zeta in EC.
+    unfold ClosedG in C1. unfold vget, lk in *. rewrite EC in Hc. clear EC.
+    apply keys_vset_incl. apply keys_vset_incl.
+    destruct (str_eqb p id); [|exact (C1 p c Hc)].
+    apply in_app_or in Hc as [Hc|[<-|[]]]; [exact (C1 _ c Hc) | exact C3].
+  - apply keys_vset_incl. apply keys_vset_incl. apply C2. exact Iid.
+Qed.
+
+Lemma closed_apply g op : ClosedG (g_vs g) -> ClosedG (g_vs (apply_gop g op)).
+Proof.
+  intros HC. destruct op as [t|t deps|t n]; simpl.
+  - destruct (add_task g t) as [g'|e] eqn:A; [exact (proj1 (closed_add_task _ _ _ HC A)) | exact HC].
+  - destruct (retrieve_or_add g t) as [[g1 id]|e] eqn:R; [|exact HC].
+    destruct (closed_retrieve _ _ _ _ HC R) as (C1 & _ & C3). apply closed_depends_on; assumption.
+  - destruct (retrieve_or_add g t) as [[g1 id]|e] eqn:R; [|exact HC].
+    destruct (closed_retrieve _ _ _ _ HC R) as (C1 & _ & C3). simpl.
+    intros p c Hc. apply keys_vset_incl.
+    destruct (str_eqb_spec p id) as [->|N].
+    + rewrite lk_vset_same in Hc. simpl in Hc. exact (C1 id c Hc).
+    + rewrite lk_vset_other in Hc by exact N. exact (C1 p c Hc).
+Qed.
+
+Lemma closed_fold ops : forall g, ClosedG (g_vs g) -> ClosedG (g_vs (List.fold_left apply_gop ops g)).
+Proof.
+  induction ops as [|op ops IH]; intros g HC; simpl; [exact HC|]. apply IH. apply closed_apply. exact HC.
+Qed.
+
+Theorem build_graph_closed ops :
+  forall p c, In c (children (build_graph ops) p) -> In c (vids (build_graph ops)).
+Proof. apply (closed_fold ops empty_graph). intros p c H. unfold lk in H. simpl in H. contradiction. Qed.
+
 (* hence the invariant holds in every state of every schedule of every graph the API can build *)
 From GO Require Import Proofs.DagHold Proofs.DagInv.
 
 Theorem built_reachable ops cf ls st :
   dsteps (build_graph ops) cf (init_state []) ls = Some st -> Inv (build_graph ops) cf st.
 Proof. apply inv_reachable. apply build_graph_sym. Qed.
+
+(* ---- progress for every graph the API can build ---- *)
+From GO Require Import Proofs.DagSort Proofs.DagProgress.
+
+Theorem built_progress ops cf ls st :
+  let g := build_graph ops in
+  dsteps g cf (init_state []) ls = Some st ->
+  (exists l, dfs_sort g (vids g) = Some (inl l)) -> (0 < cf_cap cf)%N ->
+  d_returned st = false -> (forall v, d_envlock st v = false) ->
+  (forall v r, d_thread st v = Finished r -> receive g st v r true <> None) ->
+  exists l st', productive l = true /\ dstep g cf st l = Some st'.
+Proof.
+  intros g S Topo Cap NR NoLock Fuel.
+  assert (SYM := build_graph_sym ops).
+  destruct (inv_live_steps g cf SYM ls (init_state []) st (inv_init g cf) (live_init) S) as [I L].
+  apply (progress g cf st I L); auto.
+  intros p c _ Hc. exact (build_graph_closed ops p c Hc).
+Qed.
+
+(* ... with the fuel side condition discharged: on an acyclic graph the recursion of skipParents
+   always has enough fuel *)
+From GO Require Import Proofs.DagFuel.
+
+Theorem built_progress_acyclic ops cf ls st :
+  let g := build_graph ops in
+  dsteps g cf (init_state []) ls = Some st ->
+  (exists l, dfs_sort g (vids g) = Some (inl l)) -> (0 < cf_cap cf)%N ->
+  d_returned st = false -> (forall v, d_envlock st v = false) ->
+  exists l st', productive l = true /\ dstep g cf st l = Some st'.
+Proof.
+  intros g S [l Topo] Cap NR NoLock.
+  apply (built_progress ops cf ls st S (ex_intro _ l Topo) Cap NR NoLock).
+  intros v r T.
+  assert (SYM := build_graph_sym ops).
+  destruct (inv_live_steps g cf SYM ls (init_state []) st (inv_init g cf) (live_init) S) as [I _].
+  destruct (dfs_sort_sound g (vids g) l Topo) as (ND & All & Bef).
+  assert (Lsub : forall u, In u l -> In u (vids g)).
+  { apply (dfs_sort_within g (fun u => In u (vids g))) with (order := vids g); [|exact Topo|auto].
+    intros u c Iu Ic. exact (build_graph_closed ops u c Ic). }
+  apply (receive_defined g cf SYM l ND All Bef Lsub st v r true I).
+  apply (t_vids g cf st I). rewrite T. discriminate.
+Qed.
+
